@@ -358,6 +358,11 @@ int main() {{
     std::vector<ssize_t> shape(1, (ssize_t)NEQUATIONS);
     double ab4[NEQUATIONS] = {{ {abarr} }};
     pybind11::array_t<double> in(shape, ab4);
+    /* ... after the reference went through the python entry point as well: first another reference (opt 0), then the
+       species vector with opt 1 handed to PyWrapSetReferenceAbund */
+    n.SetReferenceAbund(ref, 0);
+    pybind11::array_t<double> refin(shape, refsp);
+    n.PyWrapSetReferenceAbund(refin, 1);
     pybind11::array_t<double> out = n.PyWrapRenorm(in);
     pybind11::buffer_info bi = out.request();
     if (bi.size != NEQUATIONS) return 9;
@@ -390,7 +395,7 @@ int main() {{
                 return 1, [(f"C16:compiled-renorm-differs:{backend}:opt1", f"{'+'.join(species)} [{backend}]: SetReferenceAbund(species vector, 1), then Renorm: ab[{sl}] = {got2[sl]!r}, exact solution {e!r}", case)]
         for sl, e in exp2.items():
             if not (abs(got4[sl] - e) <= 1e-9 * max(abs(e), 1e-300)):
-                return 1, [(f"C16:compiled-renorm-differs:{backend}:python-entry", f"{'+'.join(species)} [{backend}]: the array PyWrapRenorm returns has ab[{sl}] = {got4[sl]!r} (input {float(ab.get(sl, 0))!r}); Renorm on the same state and reference gives {e!r}", case)]
+                return 1, [(f"C16:compiled-renorm-differs:{backend}:python-entry", f"{'+'.join(species)} [{backend}]: PyWrapSetReferenceAbund(species vector, 1) then PyWrapRenorm: the returned array has ab[{sl}] = {got4[sl]!r} (input {float(ab.get(sl, 0))!r}); SetReferenceAbund(same vector, 1) + Renorm on the same state give {e!r}", case)]
         return 2, []
     finally:
         shutil.rmtree(d, ignore_errors=True)
